@@ -7,8 +7,19 @@
 //!      producer kind x write-size pattern x failure position x consumer script
 //!      (drain / cancel after k / unknown id) x gate discipline (who arrives first
 //!      at each rendezvous);
+//!  (1b) several streams on ONE router (`c09_multi.rs`): 2 and 3 streams open at the
+//!      same time (same resource twice, different resources, different body shapes
+//!      on one registration), their next calls in every order, one extra event at
+//!      every position (cancel request / notify, next past the end, unknown id, a
+//!      late open), failing producers among healthy ones, sequential reuse of one
+//!      router by three streams with the old ids probed at every position, and
+//!      every order of the writes of two concurrently producing sessions;
 //!  (2) transports: the public pullers over Client<->Server (TCP),
-//!      AsyncClient<->Server and WebSocketClient<->WebSocketServer on a boundary subset.
+//!      AsyncClient<->Server and WebSocketClient<->WebSocketServer on a boundary subset;
+//!  (2b) several pulls through ONE connection (`c09_netmulti.rs`): every ordered pair
+//!      of puller kinds one after the other, three in a row, a first stream left
+//!      open / cancelled mid-way / resumed after another pull, and two and three
+//!      pull futures joined on AsyncClient and WebSocketClient.
 //!
 //! Oracle (see `seam::run_session`): concatenation of pulled chunks == the bytes
 //! the producer emitted (zstd: decompresses to exactly the logical bytes); exactly
@@ -17,8 +28,12 @@
 //! at any byte position -> an error response, never an end marker. A session that
 //! never answers is reported by a watchdog (and re-run once before it counts).
 
+#[path = "c09_multi.rs"]
+mod multi;
 #[path = "c09_net.rs"]
 mod net;
+#[path = "c09_netmulti.rs"]
+mod netmulti;
 #[path = "c09_seam.rs"]
 mod seam;
 
@@ -374,6 +389,8 @@ fn build_net_jobs(tier: Tier) -> Vec<net::NetJob> {
 // ---------------------------------------------------------------------------
 
 const WATCHDOG: Duration = Duration::from_secs(10);
+/// watchdog sub-index offset of the multi-pull rows of a transport job
+const NETMULTI_BASE: u64 = 1_000_000;
 const IDLE: u64 = u64::MAX;
 
 struct Slot {
@@ -729,7 +746,7 @@ pub fn run(tier: Tier) -> ! {
     raise_fd_limit();
     let zstd_level: i32 = std::env::var("C09_ZSTD_LEVEL").ok().and_then(|s| s.parse().ok()).unwrap_or(tier.pick(1, 3));
     seam::ZSTD_LEVEL.store(zstd_level, Ordering::Relaxed);
-    let samples = Samples::new(6);
+    let samples = Samples::new(8);
 
     // cross-checks of the oracle's own inputs
     for m in [0usize, 1, 5, 63, 64, 70] {
@@ -742,6 +759,19 @@ pub fn run(tier: Tier) -> ! {
         if beve::to_vec(&v).map(|b| b != l).unwrap_or(true) {
             ctx.note(format!("beve::to_vec and beve::to_writer_streaming differ for value m={m}; the streaming encoding is the reference"));
         }
+    }
+
+    if std::env::var("C09_PLAN_ONLY").is_ok() {
+        // diagnostic: the size of the multi-stream plan (estimates), nothing is executed
+        let jobs = multi::build_jobs(tier);
+        let mut per: BTreeMap<&'static str, (u64, u64)> = BTreeMap::new();
+        for j in &jobs {
+            let e = per.entry(j.fam.name()).or_insert((0, 0));
+            e.0 += 1;
+            e.1 += multi::estimate(j);
+        }
+        let net: usize = build_net_jobs(tier).iter().filter(|j| netmulti::enabled(j, tier)).map(|j| netmulti::subcases(j, tier).len()).sum();
+        ctx.machinery(format!("plan only: multi-stream jobs/estimated scenarios per family {per:?}, work units {}, transport multi-pull sub-cases {net}", multi::units(&jobs).len()));
     }
 
     // ---------------- layer 1: narrow seam
@@ -796,6 +826,99 @@ pub fn run(tier: Tier) -> ! {
         ctx.machinery(m);
     }
 
+    // ---------------- layer 1b: several streams on one router (seam)
+    let mjobs = Arc::new(multi::build_jobs(tier));
+    let mut magg = multi::MAgg::default();
+    let t1b = Instant::now();
+    if hang.is_none() {
+        let (mj2, mj3) = (mjobs.clone(), mjobs.clone());
+        let munits = Arc::new(multi::units(&mjobs));
+        let end = run_pool(
+            munits.len() as u64,
+            1,
+            oversub() * 2,
+            multi::MAgg::default,
+            move |agg: &mut multi::MAgg, u, slot| {
+                let (ji, part, parts) = munits[u as usize];
+                let i = ji as u64;
+                let job = &mj2[ji];
+                let t0 = Instant::now();
+                slot.begin(i, u64::MAX - 1);
+                match multi::scenarios(job) {
+                    Ok(scs) => {
+                        if part == 0 {
+                            agg.add("jobs", 1);
+                            agg.add(&format!("jobs[{}]", job.fam.name()), 1);
+                        }
+                        agg.add("work_units", 1);
+                        for (si, sc) in scs.iter().enumerate() {
+                            if si as u64 % parts != part {
+                                continue;
+                            }
+                            slot.begin(i, si as u64);
+                            let out = multi::run_scenario(sc);
+                            let idx = i * 10_000_000 + si as u64;
+                            agg.fold(idx, sc, &out);
+                            if sc.event == 1 && out.st.interleaved_switches >= 2 && out.machinery.is_none() && agg.sample.as_ref().map(|s| idx < s.0).unwrap_or(true) {
+                                agg.sample = Some((idx, json!({"case": multi::scenario_json(sc), "observed": out.trace, "violations": out.viols.len()})));
+                            }
+                        }
+                    }
+                    Err(multi::Skip::OverLimit) => agg.add("jobs_skipped_stream_longer_than_the_family_bound", (part == 0) as u64),
+                    Err(multi::Skip::SoloNotTerminal) => agg.add("jobs_skipped_solo_pull_not_terminal", (part == 0) as u64),
+                    Err(multi::Skip::Machinery(m)) => {
+                        if agg.machinery.is_none() {
+                            agg.machinery = Some(format!("multi-stream job {job:?}: {m}"));
+                        }
+                    }
+                }
+                agg.thread_s += t0.elapsed().as_secs_f64();
+                slot.idle();
+            },
+            move |idx, sub| {
+                let job = mj3[idx as usize].clone();
+                eprintln!("[C09] watchdog: multi-stream job {idx} scenario {sub} did not finish within {} s, re-executing once", WATCHDOG.as_secs());
+                with_watchdog(move || match multi::scenarios(&job) {
+                    Ok(scs) => scs.get(sub as usize).map(|sc| multi::run_scenario(sc).viols.len()).unwrap_or(0),
+                    Err(_) => 0,
+                })
+                .is_none()
+            },
+        );
+        match end {
+            PoolEnd::Done(parts, fe) => {
+                false_expiries += fe;
+                parts.into_iter().for_each(|p| magg.merge(p))
+            }
+            PoolEnd::Stuck { idx, sub } => ctx.machinery(format!(
+                "a worker stayed on multi-stream job {idx} scenario {sub} for {} s although it finishes when re-executed",
+                6 * WATCHDOG.as_secs()
+            )),
+            PoolEnd::Hang { idx, sub, finished } => {
+                finished.into_iter().for_each(|p| magg.merge(p));
+                let job = mjobs[idx as usize].clone();
+                let job2 = job.clone();
+                // the scenario list needs the solo pulls, which may be what hangs
+                let sc = with_watchdog(move || multi::scenarios(&job2).ok().and_then(|s| s.get(sub as usize).cloned())).flatten();
+                let (mut cj, desc) = match &sc {
+                    Some(sc) => (multi::scenario_json(sc), multi::short(sc)),
+                    None => (
+                        json!({"layer": "multi", "family": job.fam.name(), "router": multi::cfg_json(&job.cfg), "streams": job.streams.iter().map(|s| multi::resource(&job.cfg, s)).collect::<Vec<_>>(), "scenario": sub}),
+                        format!("{job:?} scenario {sub}"),
+                    ),
+                };
+                cj["hang"] = json!(true);
+                hang = Some((format!("C09:multi:hang:{}", if job.cfg.zstd { "zstd" } else { "none" }), hang_what("multi-stream seam", &desc), cj));
+            }
+        }
+        if let Some(m) = &magg.machinery {
+            if agg.viols.is_empty() && magg.viols.is_empty() && hang.is_none() {
+                ctx.machinery(m);
+            }
+        }
+    }
+    let multi_wall = t1b.elapsed().as_secs_f64();
+
     // ---------------- layer 2: transports (skipped once the seam already hangs)
     let jobs = Arc::new(build_net_jobs(tier));
     let mut net_agg = Agg::new();
@@ -810,6 +933,12 @@ pub fn run(tier: Tier) -> ! {
         let rt3 = rt.clone();
         let net_confirm = move |idx: u64, sub: u64| -> bool {
             let job = jobs3[idx as usize];
+            if (NETMULTI_BASE..u64::MAX - 1).contains(&sub) {
+                let Some(ms) = netmulti::subcases(&job, tier).get((sub - NETMULTI_BASE) as usize).cloned() else { return false };
+                eprintln!("[C09] watchdog: transport multi-pull {} did not finish within {} s, re-executing once", netmulti::case_json(&job, &ms), WATCHDOG.as_secs());
+                let rt4 = rt3.clone();
+                return with_watchdog(move || net::setup(&job, &rt4).map(|ep| netmulti::run_sub(&job, &ms, &ep, &rt4).viols.len())).is_none();
+            }
             let Some(s) = net::subcases(&job).get(sub as usize).copied() else {
                 // the setup phase itself: re-run the setup alone
                 let rt4 = rt3.clone();
@@ -857,6 +986,52 @@ pub fn run(tier: Tier) -> ! {
                     }
                 }
             }
+            // several pulls through the same three connections
+            if netmulti::enabled(&job, tier) {
+                agg.add("netmulti_servers", 1);
+                for (si, ms) in netmulti::subcases(&job, tier).iter().enumerate() {
+                    slot.begin(i, NETMULTI_BASE + si as u64);
+                    let out = netmulti::run_sub(&job, ms, &ep, &rt2);
+                    let mode = if ms.concurrent { "concurrent" } else { "sequential" };
+                    agg.add("netmulti_subcases", 1);
+                    agg.add(if ms.concurrent { "netmulti_subcases_concurrent" } else { "netmulti_subcases_sequential" }, 1);
+                    agg.add(if ms.items.len() == 3 { "netmulti_subcases_three_pulls" } else { "netmulti_subcases_two_pulls" }, 1);
+                    agg.add("netmulti_pulls", out.pulls);
+                    agg.add("netmulti_exchanges", out.exchanges);
+                    agg.add("netmulti_ok_pulls", out.ok_pulls);
+                    agg.add("netmulti_failed_producer_pulls_that_errored", out.err_pulls);
+                    agg.add("netmulti_abandoned_streams_resumed_after_another_pull", out.resumed);
+                    agg.add(
+                        match (ms.transport, ms.concurrent) {
+                            (net::Transport::Tcp, _) => "netmulti_subcases_tcp_client_sequential",
+                            (net::Transport::AsyncTcp, false) => "netmulti_subcases_async_client_sequential",
+                            (net::Transport::AsyncTcp, true) => "netmulti_subcases_async_client_concurrent",
+                            (net::Transport::Ws, false) => "netmulti_subcases_websocket_client_sequential",
+                            (net::Transport::Ws, true) => "netmulti_subcases_websocket_client_concurrent",
+                        },
+                        1,
+                    );
+                    if ms.items.len() >= 2 && ms.items[0].m == ms.items[1].m && ms.items[0].fail_at == ms.items[1].fail_at {
+                        agg.add("netmulti_subcases_same_resource_twice", 1);
+                    }
+                    if ms.items.iter().any(|it| matches!(it.p, netmulti::MPull::RawAbandon(_) | netmulti::MPull::RawCancel(_))) {
+                        agg.add("netmulti_subcases_first_stream_left_or_cancelled_mid_way", 1);
+                    }
+                    if ms.items.iter().any(|it| it.fail_at.is_some()) {
+                        agg.add("netmulti_subcases_with_a_failing_producer", 1);
+                    }
+                    let _ = mode;
+                    if ms.concurrent && ms.items.len() == 3 && !agg.samples.iter().any(|s| s.0 >= NETMULTI_BASE) {
+                        agg.samples.push((NETMULTI_BASE + i, json!({"case": netmulti::case_json(&job, ms), "result": if out.viols.is_empty() { "every pull returned its own content" } else { "violation" }})));
+                    }
+                    agg.viol_total += out.viols.len() as u64;
+                    for (k, w) in out.viols {
+                        if !agg.viols.iter().any(|v| v.1 == k) {
+                            agg.viols.push((i * 100_000 + 50_000 + si as u64, k, w, netmulti::case_json(&job, ms)));
+                        }
+                    }
+                }
+            }
             slot.idle();
         }, net_confirm);
         match end {
@@ -872,14 +1047,28 @@ pub fn run(tier: Tier) -> ! {
             PoolEnd::Hang { idx, sub, finished } => {
                 finished.into_iter().for_each(|p| net_agg.merge(p));
                 let job = jobs[idx as usize];
-                let subs = net::subcases(&job);
-                let Some(s) = subs.get(sub as usize).copied() else {
-                    ctx.machinery(format!("transport setup for {job:?} does not finish within the watchdog"))
-                };
-                let mut cj = net_case_json(&job, &s);
-                let desc = cj.to_string();
-                cj["hang"] = json!(true);
-                hang = Some((format!("C09:net:hang:{}", s.transport.name()), hang_what("transport", &desc), cj));
+                if (NETMULTI_BASE..u64::MAX - 1).contains(&sub) {
+                    let Some(ms) = netmulti::subcases(&job, tier).get((sub - NETMULTI_BASE) as usize).cloned() else {
+                        ctx.machinery(format!("transport multi-pull sub-case {sub} of {job:?} does not exist"))
+                    };
+                    let mut cj = netmulti::case_json(&job, &ms);
+                    let desc = cj.to_string();
+                    cj["hang"] = json!(true);
+                    hang = Some((
+                        format!("C09:netmulti:hang:{}:{}", ms.transport.name(), if ms.concurrent { "concurrent" } else { "sequential" }),
+                        hang_what("transport, several pulls on one connection", &desc),
+                        cj,
+                    ));
+                } else {
+                    let subs = net::subcases(&job);
+                    let Some(s) = subs.get(sub as usize).copied() else {
+                        ctx.machinery(format!("transport setup for {job:?} does not finish within the watchdog"))
+                    };
+                    let mut cj = net_case_json(&job, &s);
+                    let desc = cj.to_string();
+                    cj["hang"] = json!(true);
+                    hang = Some((format!("C09:net:hang:{}", s.transport.name()), hang_what("transport", &desc), cj));
+                }
             }
         }
         if let Some(m) = &net_agg.machinery {
@@ -896,7 +1085,9 @@ pub fn run(tier: Tier) -> ! {
     all.sort_by(|a, b| a.0.cmp(&b.0));
     let mut netv: Vec<(u64, String, String, Value)> = net_agg.viols.drain(..).collect();
     netv.sort_by(|a, b| a.0.cmp(&b.0));
-    for (_, k, w, c) in all.into_iter().chain(netv) {
+    let mut multiv: Vec<(u64, String, String, Value)> = magg.viols.drain(..).collect();
+    multiv.sort_by(|a, b| a.0.cmp(&b.0));
+    for (_, k, w, c) in all.into_iter().chain(multiv).chain(netv) {
         ctx.violation(k, w, c);
     }
     if let Some((k, w, c)) = hang.clone() {
@@ -916,6 +1107,21 @@ pub fn run(tier: Tier) -> ! {
     }
     if agg.get("channel_depth_exceeded") > 0 {
         ctx.note(format!("{} gated sessions saw the producer run further ahead than session_depth admits (not part of C09)", agg.get("channel_depth_exceeded")));
+    }
+    if magg.get("scenarios_delivery_partition_differs_from_solo_pull") > 0 {
+        ctx.note(format!(
+            "{} multi-stream scenarios delivered a stream in chunks of other sizes than the same resource pulled alone (chunk sizing is local policy: not a verdict)",
+            magg.get("scenarios_delivery_partition_differs_from_solo_pull")
+        ));
+    }
+    if magg.get("gated_prediction_missed") > 0 {
+        ctx.note(format!("{} gated-writes scenarios missed a predicted producer write and fell back to free running", magg.get("gated_prediction_missed")));
+    }
+    if magg.get("jobs_skipped_stream_longer_than_the_family_bound") > 0 {
+        ctx.note(format!(
+            "{} multi-stream jobs were skipped because a stream needed more next calls than the family's bound when pulled alone (counted in nonvacuity.multi_stream)",
+            magg.get("jobs_skipped_stream_longer_than_the_family_bound")
+        ));
     }
     if agg.get("gate_prediction_missed") > 0 {
         ctx.note(format!("{} gated sessions missed a predicted producer event and fell back to free running", agg.get("gate_prediction_missed")));
@@ -957,6 +1163,66 @@ pub fn run(tier: Tier) -> ! {
         for k in ["net_pulls_tcp_client", "net_pulls_async_client", "net_pulls_websocket_client", "net_failed_producer_pulls_that_errored", "net_ok_pulls"] {
             need(k, net_agg.get(k));
         }
+        for k in [
+            "scenarios[pair]",
+            "scenarios[triple]",
+            "scenarios[sequential-reuse]",
+            "scenarios[gated-writes]",
+            "event[none]",
+            "event[cancel-request]",
+            "event[cancel-notify]",
+            "event[next-past-the-end]",
+            "event[next-unknown-id]",
+            "event[cancel-unknown-id]",
+            "event[open-late-same-resource]",
+            "event[next-old-id]",
+            "event[cancel-old-id]",
+            "streams_ended_with_end_marker",
+            "streams_ended_with_error",
+            "streams_cancelled_mid_stream",
+            "cancels_of_an_already_released_stream",
+            "next_after_cancel_probes",
+            "next_past_the_end_probes",
+            "next_after_failure_probes",
+            "next_unknown_id_probes",
+            "next_switches_between_streams",
+            "scenarios_same_resource_opened_twice",
+            "scenarios_different_resources",
+            "scenarios_failing_stream_errored_and_healthy_stream_ended",
+            "scenarios_open_while_another_stream_is_live",
+            "scenarios_max_2_streams_live_at_once",
+            "scenarios_max_3_streams_live_at_once",
+            "scenarios_zstd",
+            "scenarios_two_or_more_producer_kinds_on_one_router",
+            "gated_producer_writes_released_and_observed",
+        ] {
+            need(&format!("multi_stream.{k}"), magg.get(k));
+        }
+        for kn in KIND_NAMES.iter().copied().chain(["mixed"]) {
+            need(&format!("multi_stream.scenarios_registration[{kn}]"), magg.get(&format!("scenarios_registration[{kn}]")));
+        }
+        if magg.get("jobs_skipped_solo_pull_not_terminal") > 0 {
+            ctx.machinery("a multi-stream job found its solo reference pull not terminal although no violation was reported");
+        }
+        for k in [
+            "netmulti_subcases_tcp_client_sequential",
+            "netmulti_subcases_async_client_sequential",
+            "netmulti_subcases_async_client_concurrent",
+            "netmulti_subcases_websocket_client_sequential",
+            "netmulti_subcases_websocket_client_concurrent",
+            "netmulti_subcases_three_pulls",
+            "netmulti_subcases_same_resource_twice",
+            "netmulti_subcases_first_stream_left_or_cancelled_mid_way",
+            "netmulti_abandoned_streams_resumed_after_another_pull",
+            "netmulti_subcases_with_a_failing_producer",
+            "netmulti_failed_producer_pulls_that_errored",
+            "netmulti_ok_pulls",
+        ] {
+            need(k, net_agg.get(k));
+        }
+        if net_agg.get("netmulti_ok_pulls") + net_agg.get("netmulti_failed_producer_pulls_that_errored") != net_agg.get("netmulti_pulls") {
+            ctx.machinery("multi-pull rows without violation must all have returned their own content or their own producer's error");
+        }
         if agg.get("failure_surfaced_as_error") != agg.get("failure_injection_sessions") {
             ctx.machinery("failure sessions without violation must all have surfaced an error");
         }
@@ -977,14 +1243,21 @@ pub fn run(tier: Tier) -> ! {
             }
         }
     }
+    if let Some((_, s)) = magg.sample.clone() {
+        samples.offer(|| s);
+    }
     net_agg.samples.sort_by(|a, b| a.0.cmp(&b.0));
     if let Some((_, s)) = net_agg.samples.first().cloned() {
         samples.offer(|| s);
     }
+    if let Some((_, s)) = net_agg.samples.iter().find(|s| s.0 >= NETMULTI_BASE).cloned() {
+        samples.offer(|| s);
+    }
     samples.offer(|| json!({"note": "sample sessions were skipped because the run ended in a hang"}));
 
-    let states = agg.get("sessions") + net_agg.get("net_pulls");
-    let transitions = agg.get("exchanges") + net_agg.get("net_exchanges");
+    let states = agg.get("sessions") + net_agg.get("net_pulls") + magg.get("scenarios") + net_agg.get("netmulti_subcases");
+    let transitions = agg.get("exchanges") + net_agg.get("net_exchanges") + magg.get("exchanges") + net_agg.get("netmulti_exchanges");
+    let cfgs = multi::cfg_plans(tier);
     let nv_seam: BTreeMap<String, u64> = agg.c.iter().map(|(k, v)| (k.to_string(), *v)).collect();
     let nv_net: BTreeMap<String, u64> = net_agg.c.iter().map(|(k, v)| (k.to_string(), *v)).collect();
     let per_kind = |a: &[u64; 5]| -> Value { json!(KIND_NAMES.iter().zip(a.iter()).map(|(k, v)| (k.to_string(), *v)).collect::<BTreeMap<_, _>>()) };
@@ -994,7 +1267,7 @@ pub fn run(tier: Tier) -> ! {
         "traces_validated_against_impl": states,
         "samples": samples.take(),
         "exhaustive": hang.is_none(),
-        "rule": "seam: every (chunk size, payload length, depth, compression, producer kind, write-size pattern, failure position, consumer script, gate discipline) combination of the bound is one session on the real open/next/cancel handlers; transports: every (kind, chunk size, depth, compression) server x boundary payloads x public puller x transport",
+        "rule": "seam: every (chunk size, payload length, depth, compression, producer kind, write-size pattern, failure position, consumer script, gate discipline) combination of the bound is one session on the real open/next/cancel handlers; multi-stream seam: per router configuration and tuple of resources, 2 or 3 streams opened on ONE fresh router, their next calls in every order (each stream's number of calls = the number measured by pulling the same resource alone), and for every order one extra event at every position; sequential reuse of one router by three streams; every order of the 1-byte writes of concurrently producing sessions; transports: every (kind, chunk size, depth, compression) server x boundary payloads x public puller x transport, and on the same three connections two and three pulls one after the other (every ordered pair of puller kinds) and, for AsyncClient and WebSocketClient, joined concurrently",
         "bound": {
             "chunk_bytes": chunk_sizes(tier),
             "payload_length": "0..=3c+1 for c<=16; {0,1,kc-1,kc,kc+1 (k=1..3)} for c in {4096, 1 MiB}; element counts for value/typed/complex additionally 60..=62+2c and the counts whose encoding is exactly kc-1, kc, kc+1",
@@ -1009,6 +1282,32 @@ pub fn run(tier: Tier) -> ! {
             "gates": "free; hold (first next observed parked before the producer starts); ahead (producer provably at its channel-depth limit before every next; compression none); sched (every assignment of producer-first/consumer-first to each gate point; c<=4 quick, c<=16 thorough; compression none)",
             "transports": {"servers": jobs.len(), "chunk_bytes": tier.pick(vec![1u32, 3, 8], vec![1, 2, 3, 4, 7, 8, 16, 4096, 1 << 20]), "payloads": "m in {0,1,c-1,c,c+1,2c,3c+1} (+ counts whose encoding is exactly c, 2c, 3c)", "pullers": ["pull_to_vec", "pull_value", "pull_typed_slice", "pull_complex_slice", "pull_consume", "raw open/next exchanges", "the *_async forms over AsyncClient and over WebSocketClient"]},
         },
+        "multi_stream_bound": {
+            "router_configurations": cfgs.iter().map(|p| {
+                let mut j = multi::cfg_json(&p.cfg);
+                j["families"] = json!([if p.pairs && p.pair_events { "pair" } else if p.pairs { "pair (orders only, no extra events)" } else { "" }, if p.triples { "triple" } else { "" }, if p.seq { "sequential-reuse" } else { "" }].iter().filter(|s| !s.is_empty()).collect::<Vec<_>>());
+                let mut res: Vec<String> = mjobs.iter().filter(|j| j.cfg == p.cfg && j.fam != multi::Fam::Gated).flat_map(|j| j.streams.iter().map(|s| multi::resource(&j.cfg, &multi::SSpec { salt: 0, ..*s }))).collect();
+                res.sort();
+                res.dedup();
+                j["resources_m:write-pattern:fail-at[:body]"] = json!(res);
+                j["alphabet"] = json!(if p.full { "every payload with at most 3 (triples: 2) responses" } else { "one payload per (number of responses, wire length an exact multiple of chunk_bytes or not) class" });
+                j
+            }).collect::<Vec<_>>(),
+            "streams": "healthy payloads of 1, 2, 3 responses incl. the empty payload and exact multiples of chunk_bytes (reader/writer also one payload written in 1-byte writes); failing reader/writer payloads (Err after p bytes for p at the chunk boundaries [thorough: every p], and a producer-thread panic); the mixed registration serves serde value, typed array, complex array, reader and writer bodies from one with_writer_stream router",
+            "pairs": tier.pick("two streams with <= 3 responses each: every unordered pair of healthy payloads (one payload of 3 responses, the exact-multiple and the other payload of 2 and of 1 responses) incl. the same resource twice; every failing payload with the 3-response healthy partner, with a rotating partner (failing stream second; extra events when the failing stream has <= 2 responses) and with itself (orders only)", "two streams with <= 3 responses each: every unordered pair of healthy payloads incl. the same resource twice; every failing payload whose failure position is at or next to a chunk boundary with one healthy partner per number of responses in both open orders (healthy-first with a 2-response partner: orders only), the other failing payloads with the 3-response partner and a rotating one, and every failing payload with itself (extra events when it has <= 2 responses)"),
+            "triples": tier.pick("three streams with <= 2 responses each: 4 core triples per configuration (same resource three times, three different, one failing, one with the empty payload first [orders only]); orders: the covering subset (block / round-robin / nested order for each of the 6 stream permutations)", "three streams with <= 2 responses each: every multiset of healthy payloads and every failing payload between two healthy ones, ALL orders; the extra events on the 4 core triples (all orders for the same-resource-three-times and the three-different triple, the covering subset of orders for the other two)"),
+            "orders": "opens first (slot order), then every distinct order of the streams' next calls",
+            "extra_events_at_every_position": ["cancel of each stream (request form, notify form)", "next for a stream that has already finished (positions after its last response)", "next for an unknown id", "cancel for an unknown id", "open of one more stream on the same resource as stream 0 (drained at the end)"],
+            "sequential_reuse": "stream 1 pulled to its end (end marker or failure) or cancelled after j = 0..n-1 responses (request / notify form); then stream 2 (same resource, and another one [thorough: every other]) pulled with next(old id) or cancel(old id) inserted at every position; then stream 3 (the first resource again)",
+            "after_every_scenario": "streams still live are drained; one more next for every id (all released by then) must answer an error",
+            "gated_writes": tier.pick("writer bodies with 1-byte writes, chunk_bytes in {2,3}, depth 8, payloads {c+1, 2c}: every order of the two producers' writes, then drained in both slot orders", "writer bodies with 1-byte writes, chunk_bytes in {1,2,3,4}, depth 8, payloads {1,c,c+1,2c,2c+1} (sum <= 12): every order of the two producers' writes (and of three producers for c <= 2), drained in both slot orders"),
+            "jobs": mjobs.len(),
+        },
+        "transport_multi_pull_bound": {
+            "servers": tier.pick("the transport servers with (chunk_bytes, depth) in {(3,0), (3,4), (1,0)} (all kinds, both compressions)", "the transport servers with chunk_bytes in {1,2,3,4,8} and depth in {0,1,4} (all kinds, both compressions)"),
+            "sequential": "per transport (Client, AsyncClient, WebSocketClient): every ordered pair of the kind's pullers (typed puller / pull_to_vec / pull_consume / raw exchanges) on a pair of different boundary payloads and on the same resource twice, rotating through the boundary payloads [thorough: 4 different pairs and 2 identical resources per puller pair]; three pulls in a row; a first stream abandoned after 0 or 1 chunks or cancelled after 1 chunk, then every puller on the same and on another resource; a first stream abandoned, a second one cancelled mid-way; a first stream abandoned after 0 or 1 chunks, a complete pull by every puller, then the first stream continued to its end; different resources of one sub-case have different contents (salted); a failing producer before and between healthy pulls (reader/writer)",
+            "concurrent": "AsyncClient and WebSocketClient: two pull futures joined (every unordered pair of pullers, different payloads and the same resource), three joined, a failing and a healthy pull joined",
+        },
         "plan_items": n_items,
         "sessions_per_producer_kind": per_kind(&agg.per_kind),
         "distinct_outcomes": agg.outcomes,
@@ -1016,11 +1315,14 @@ pub fn run(tier: Tier) -> ! {
             "seam": nv_seam,
             "multi_chunk_sessions_per_kind": per_kind(&agg.multi_chunk_per_kind),
             "wire_length_exact_multiple_of_chunk_per_kind": per_kind(&agg.exact_multiple_per_kind),
+            "multi_stream": magg.c,
             "transports": nv_net,
             "transport_pulls_per_kind": per_kind(&net_agg.per_kind),
         },
         "thread_seconds_by_category": agg.thread_s.iter().map(|(k, v)| (k.to_string(), (v * 10.0).round() / 10.0)).collect::<BTreeMap<_, _>>(),
         "wall_seam_s": (seam_wall * 100.0).round() / 100.0,
+        "wall_multi_stream_s": (multi_wall * 100.0).round() / 100.0,
+        "thread_seconds_multi_stream": (magg.thread_s * 10.0).round() / 10.0,
         "wall_transports_s": (net_wall * 100.0).round() / 100.0,
     });
     ctx.finish(
@@ -1033,6 +1335,9 @@ pub fn run(tier: Tier) -> ! {
             "zstd streams are judged by decompressing the concatenation (zstd::stream::decode_all); the compressed bytes themselves are not compared with an independent compression run.",
             "Chunk sizes (exactly chunk_bytes except the last) are documented as local engine policy and are reported as a note, not a verdict.",
             "Transports use real loopback sockets; a pull that does not return within 10 s is re-executed once and reported as a hang only if it hangs again.",
+            "Multi-stream seam scenarios issue their calls one after the other on one thread (each stream has its own real producer thread and channel, free-running); the responses of a stream do not depend on the producers' timing, so the interleaving of the CALLS is what is enumerated. The gated-writes rows additionally fix the interleaving of the producers' writes.",
+            "The number of next calls planned per stream is the number of responses the same resource gave when pulled alone on a fresh router of the same configuration; a stream that ends earlier or later in company is still judged by the per-stream clauses (later calls become past-the-end probes; a live stream is drained at the end).",
+            "Joined pulls over AsyncClient / WebSocketClient interleave on the connection as the runtime schedules them (not enumerated at this layer: the seam layer enumerates the orders); the verdict (each pull returns its own content) does not depend on that order.",
         ],
     )
 }
@@ -1068,6 +1373,32 @@ pub fn replay(case: &Value) -> Result<(), String> {
             std::mem::forget(rt);
             match r {
                 None => Err(format!("hang: the pull did not finish within {} s", WATCHDOG.as_secs())),
+                Some(Err(e)) => Err(format!("machinery: {e}")),
+                Some(Ok(v)) if v.is_empty() => Ok(()),
+                Some(Ok(v)) => Err(v.iter().map(|(k, w)| format!("{k} :: {w}")).collect::<Vec<_>>().join("\n")),
+            }
+        }
+        Some("multi") => {
+            let sc = multi::scenario_from(case).ok_or("malformed multi-stream case")?;
+            match with_watchdog(move || multi::run_scenario(&sc)) {
+                None => Err(format!("hang: the scenario did not finish within {} s", WATCHDOG.as_secs())),
+                Some(out) => {
+                    if let Some(m) = out.machinery {
+                        return Err(format!("machinery: {m}"));
+                    }
+                    println!("observed: {}", json!(out.trace));
+                    if out.viols.is_empty() { Ok(()) } else { Err(out.viols.iter().map(|(k, w)| format!("{k} :: {w}")).collect::<Vec<_>>().join("\n")) }
+                }
+            }
+        }
+        Some("netmulti") => {
+            let (job, sub) = netmulti::case_from(case).ok_or("malformed transport multi-pull case")?;
+            let rt = Arc::new(tokio::runtime::Builder::new_multi_thread().worker_threads(2).enable_all().build().map_err(|e| e.to_string())?);
+            let rt2 = rt.clone();
+            let r = with_watchdog(move || net::setup(&job, &rt2).map(|ep| netmulti::run_sub(&job, &sub, &ep, &rt2).viols));
+            std::mem::forget(rt);
+            match r {
+                None => Err(format!("hang: the pulls did not finish within {} s", WATCHDOG.as_secs())),
                 Some(Err(e)) => Err(format!("machinery: {e}")),
                 Some(Ok(v)) if v.is_empty() => Ok(()),
                 Some(Ok(v)) => Err(v.iter().map(|(k, w)| format!("{k} :: {w}")).collect::<Vec<_>>().join("\n")),
